@@ -51,7 +51,7 @@ pub fn trimmed(s: &str) -> bool {
 
 /// Strings for element / text positions: no leading or trailing XML white space (documented exclusion).
 pub fn text_strings(level: usize) -> Vec<String> {
-    let mut v: Vec<&str> = vec!["a", "<", "&amp;", "a b", "]]>", "\"'", "é", "a; b<c;&", "a  b   c", "\x0Cx\x0C", "z\u{FEFF}w"];
+    let mut v: Vec<&str> = vec!["a", "<", "&amp;", "a b", "]]>", "\"'", "é", "a; b<c;&", "a  b   c", "\x0Cx\x0C", "z\u{FEFF}w\u{7F}\u{85}e"];
     if level >= 1 {
         v.extend(["x<y>&z", "-->", "a\tb\nc", "&#32;", "<![CDATA[", "?>", "1", "\u{FEFF}x", "\u{85}y\u{2028}", "\u{0}z", "\u{10FFFF}"]);
     }
